@@ -161,7 +161,121 @@ where
         }
     };
     let stats = stats.lock().unwrap().clone();
+    LAST.with(|l| *l.borrow_mut() = stats.clone());
     ExecResult { end, stats }
+}
+
+thread_local! {
+    static LAST: std::cell::RefCell<SchedStats> = std::cell::RefCell::new(SchedStats::default());
+}
+
+/// statistics of the execution this thread ran last
+pub fn last_stats() -> SchedStats {
+    LAST.with(|l| l.borrow().clone())
+}
+
+// ------------------------------------------------------------------------------------------
+// systematic sweeps: every schedule that deviates from the default one (no preemption, lowest
+// task first, first waiter woken) at no more than `depth` decisions
+
+/// values that reach every alternative of a decision among up to six candidates
+pub const SWEEP_VALUES: [u8; 13] = [1, 22, 43, 64, 85, 106, 127, 148, 169, 190, 211, 232, 253];
+
+pub struct SweepOutcome {
+    pub verdict: vcore::runner::Verdict,
+    pub executions: u64,
+    pub distinct_traces: u64,
+    /// false when the execution budget ended the sweep early
+    pub complete: bool,
+    pub decisions_in_default_run: usize,
+}
+
+/// `run(tape)` executes the scenario under the tape and judges it.  Deviations are tried at every
+/// decision of the default run (and, for depth 2, at every later decision of each deviating
+/// run); alternatives that lead to an execution already seen are not expanded again.
+pub fn sweep(depth: usize, max_execs: u64, run: &dyn Fn(&[u8]) -> vcore::runner::Verdict) -> SweepOutcome {
+    use vcore::runner::Verdict;
+    let mut seen = std::collections::HashSet::new();
+    let mut execs = 0u64;
+    let base = run(&[]);
+    execs += 1;
+    let st0 = last_stats();
+    let p0 = st0.choice_points + st0.randoms;
+    seen.insert(st0.trace_hash);
+    let mut out = SweepOutcome { verdict: Verdict::Pass(Default::default()), executions: 0, distinct_traces: 0, complete: true, decisions_in_default_run: p0 };
+    let tag = |v: Verdict, tape: &[u8]| -> Verdict {
+        match v {
+            Verdict::Fail(mut b) => {
+                b.detail = format!("{} [schedule tape {:?}]", b.detail, tape);
+                Verdict::Fail(b)
+            }
+            o => o,
+        }
+    };
+    if !matches!(base, Verdict::Pass(_)) {
+        out.verdict = tag(base, &[]);
+        out.executions = execs;
+        out.distinct_traces = 1;
+        return out;
+    }
+    'outer: for p in 0..p0 {
+        for v in SWEEP_VALUES {
+            if execs >= max_execs {
+                out.complete = false;
+                break 'outer;
+            }
+            let mut tape = vec![0u8; p + 1];
+            tape[p] = v;
+            let r = run(&tape);
+            execs += 1;
+            let st1 = last_stats();
+            if !matches!(r, Verdict::Pass(_)) {
+                out.verdict = tag(r, &tape);
+                break 'outer;
+            }
+            if !seen.insert(st1.trace_hash) {
+                continue;
+            }
+            if depth >= 2 {
+                let p1 = st1.choice_points + st1.randoms;
+                for q in p + 1..p1 {
+                    for w in SWEEP_VALUES {
+                        if execs >= max_execs {
+                            out.complete = false;
+                            break 'outer;
+                        }
+                        let mut t2 = vec![0u8; q + 1];
+                        t2[p] = v;
+                        t2[q] = w;
+                        let r2 = run(&t2);
+                        execs += 1;
+                        seen.insert(last_stats().trace_hash);
+                        if !matches!(r2, Verdict::Pass(_)) {
+                            out.verdict = tag(r2, &t2);
+                            break 'outer;
+                        }
+                    }
+                }
+            }
+        }
+    }
+    out.executions = execs;
+    out.distinct_traces = seen.len() as u64;
+    out
+}
+
+/// the verdict of a sweep as the verdict of one generated case
+pub fn sweep_verdict(depth: usize, max_execs: u64, run: &dyn Fn(&[u8]) -> vcore::runner::Verdict) -> vcore::runner::Verdict {
+    use vcore::runner::{Good, Verdict};
+    let o = sweep(depth, max_execs, run);
+    match o.verdict {
+        Verdict::Pass(_) => {
+            let mut g = Good { nontrivial: Some(o.distinct_traces), classes: vec![], extra_evals: o.executions.saturating_sub(1) };
+            g = g.class(format!("sweep-depth={}", depth)).class(if o.complete { "sweep-complete" } else { "sweep-cut-by-budget" }).class(format!("decisions<={}", ((o.decisions_in_default_run / 25) + 1) * 25));
+            Verdict::Pass(g)
+        }
+        other => other,
+    }
 }
 
 // ------------------------------------------------------------------------------------------
